@@ -119,7 +119,7 @@ class DslProp(PropBase):
         elif kind == "markov":
             c["a"] = GE.to_tree(gen.expr(depth))
         elif kind in ("canon", "canon_eq", "print"):
-            c["a"] = GE.to_tree(tie_family(gen, rng) if rng.random() < 0.25 else gen.expr(depth))
+            c["a"] = GE.to_tree(tie_family(gen, rng, same_name=(self.pid == "C11")) if rng.random() < 0.25 else gen.expr(depth))
             if kind == "canon":
                 r = rng.random()
                 if r < 0.5:
@@ -288,10 +288,30 @@ def normalise_l2(s: str) -> str:
     return re.sub(r"(P|\])\[([+A-Za-z0-9,]+)\]\(", fix, s)
 
 
-def tie_family(gen, rng):
+def same_name_atom(gen, rng):
+    """A probability built from a raw Distribution whose children / parents contain several variables of one name
+    (value marks, counterfactual copies in different worlds), in random order."""
+    from y0.dsl import Distribution, Probability, Variable
+    names = list(gen.names)
+    n1, n2, n3 = rng.sample(names, 3)
+    def variants(n):
+        v = Variable(n)
+        out = [v, +v, -v, v @ Variable(n3), v @ ~Variable(n3), v @ +Variable(n3), (+v) @ Variable(n3), (-v) @ Variable(n3), (+v) @ ~Variable(n3)]
+        rng.shuffle(out)
+        return out[:rng.randint(2, 4)]
+    ch = variants(n1) + ([Variable(n2)] if rng.random() < 0.5 else [])
+    pa = variants(n2) if rng.random() < 0.4 else []
+    rng.shuffle(ch); rng.shuffle(pa)
+    return Probability(Distribution(children=tuple(ch), parents=tuple(pa)))
+
+
+def tie_family(gen, rng, same_name=False):
     """A product whose factors share their sort key (same first child; same population; same summand under different
     ranges; fractions over the same numerator): the order of the result then rests on the tie-break alone."""
     from y0.dsl import Fraction, PopulationProbability, Product, Sum, P, Variable
+    if same_name and rng.random() < 0.4:
+        a = same_name_atom(gen, rng)
+        return a if rng.random() < 0.5 else Product((a, gen.atom()))
     names = list(gen.names)
     first = rng.choice(names)
     others = [n for n in names if n != first]
